@@ -23,7 +23,7 @@ TEXTS = ["G1 X10 Y20", "M3 S1000", "G0 Z5   ", "\tG4 P1", "T1 M6", "G1 X1.5 Y-2.
          "G92 E0", "M400", "G28 X Y"]
 UNI = ["Ünïcödé ✓", "日本語のコメント", "naïve café", "π≈3.14159", "emoji 🛠 ok", "plain ascii", "tab\tinside", "trailing  "]
 KINDS_FILES = ["path", "path", "pathnested", "bin", "bin", "text", "textnl", "bytesio", "stringio", "custom",
-               "console"]
+               "console", "codecs", "tmptext", "ducktext"]
 
 
 def gen(seed, run, sub="files", tier="quick"):
@@ -87,6 +87,24 @@ def gen(seed, run, sub="files", tier="quick"):
 class FakeStdoutBuffer(io.BytesIO):
     def isatty(self):
         return True
+
+
+class DuckText:
+    """A duck-typed text output: has `encoding`, accepts str only, is not an io class."""
+    encoding = "utf-8"
+    closed = False
+
+    def __init__(self):
+        self.parts = []
+
+    def write(self, s):
+        if not isinstance(s, str):
+            raise TypeError("write() argument must be str, not %s" % type(s).__name__)
+        self.parts.append(s)
+        return len(s)
+
+    def flush(self):
+        pass
 
 
 class FakeStdout:
@@ -171,6 +189,19 @@ def execute(scn, guide=None, keep=False):
             w.stream = open(w.path, "w", encoding="utf-8", newline="" if kd == "textnl" else None,
                             buffering=buf if buf not in (0, 1) else -1)
             w.obj = FileWriter(w.stream)
+        elif kd == "codecs":
+            import codecs
+            w.path = os.path.join(tmp, spec["name"] + ".codecs.txt")
+            w.stream = codecs.open(w.path, "w", "utf-8")      # a text stream that is not a TextIOBase
+            w.obj = FileWriter(w.stream)
+        elif kd == "tmptext":
+            w.stream = tempfile.NamedTemporaryFile("w", encoding="utf-8", newline="", dir=tmp,
+                                                   suffix=".tmp.txt", delete=False)
+            w.path = w.stream.name
+            w.obj = FileWriter(w.stream)
+        elif kd == "ducktext":
+            w.stream = DuckText()
+            w.obj = FileWriter(w.stream)
         elif kd == "bytesio":
             w.stream = io.BytesIO()
             w.obj = FileWriter(w.stream)
@@ -201,6 +232,8 @@ def execute(scn, guide=None, keep=False):
                 return f.read()
         if w.kind in ("bytesio", "console"):
             return w.stream.getvalue()
+        if w.kind == "ducktext":
+            return "".join(w.stream.parts).encode("utf-8")
         if w.kind == "stringio":
             return w.stream.getvalue().encode("utf-8")
         return None
